@@ -227,3 +227,73 @@ Proof. intros w. rewrite (next_useful_index_skip w) at 1. apply next_useful_inde
 (* extra blanks / comments / line breaks skipped in front of a literal character do not matter (any fuel) *)
 Theorem C07_blank_before_exact : forall f w c, maybe_expect_char (skip_ignorable f w) c = maybe_expect_char w c.
 Proof. intros f w c. unfold maybe_expect_char. rewrite next_useful_index_absorbs. reflexivity. Qed.
+
+(* ------------------------------------------------------------------------------------------------ *)
+(* literal priority against ALL working matches (de-duplication only drops matches with the same literal count) *)
+
+Definition args_depth (idepth : imatch -> nat) : list iarg -> nat :=
+  fix go (a : list iarg) : nat :=
+    match a with [] => O | ANested n _ _ _ :: r => Nat.max (idepth n) (go r) | _ :: r => go r end.
+Fixpoint idepth (m : imatch) : nat := match m with IMatch _ _ args _ => S (args_depth idepth args) end.
+
+Definition args_count (defs : list ruledef) : list iarg -> N :=
+  fix go (a : list iarg) : N :=
+    match a with [] => 0 | ANested n _ _ _ :: r => exact_count defs n + go r | _ :: r => go r end.
+Definition args_same : list iarg -> list iarg -> bool :=
+  fix go (x y : list iarg) : bool :=
+    match x, y with
+    | [], [] => true
+    | AExpr _ s1 t1 _ :: x', AExpr _ s2 t2 _ :: y' => (s1 =? s2) && (t1 =? t2) && go x' y'
+    | ANested m1 s1 t1 _ :: x', ANested m2 s2 t2 _ :: y' => (s1 =? s2) && (t1 =? t2) && same_match m1 m2 && go x' y'
+    | _, _ => false
+    end.
+
+Lemma exact_count_unfold : forall defs rd ru args e,
+  exact_count defs (IMatch rd ru args e) =
+  match nth_error defs rd with Some d => match nth_error (rd_rules d) ru with Some r => rexact r | None => 0 end | None => 0 end
+  + args_count defs args.
+Proof. reflexivity. Qed.
+Lemma same_match_unfold : forall rd1 ru1 a1 e1 rd2 ru2 a2 e2,
+  same_match (IMatch rd1 ru1 a1 e1) (IMatch rd2 ru2 a2 e2) =
+  Nat.eqb rd1 rd2 && Nat.eqb ru1 ru2 && Nat.eqb (length a1) (length a2) && args_same a1 a2.
+Proof. reflexivity. Qed.
+
+Lemma same_match_exact_count : forall defs n a b, (idepth a <= n)%nat -> same_match a b = true ->
+  exact_count defs a = exact_count defs b.
+Proof.
+  intros defs. induction n as [|n IH]; intros [rd1 ru1 a1 e1] [rd2 ru2 a2 e2] Hd Hs; [cbn [idepth] in Hd; lia|].
+  rewrite same_match_unfold in Hs. rewrite !andb_true_iff in Hs. destruct Hs as [[[H1 H2] _] H4].
+  apply Nat.eqb_eq in H1. apply Nat.eqb_eq in H2. subst rd2 ru2. rewrite !exact_count_unfold. f_equal.
+  cbn [idepth] in Hd. assert (Hd' : (args_depth idepth a1 <= n)%nat) by lia. clear Hd.
+  revert a2 H4 Hd'. induction a1 as [|x a1 IHa]; intros a2 H4 Hd'.
+  - destruct a2; [reflexivity | discriminate].
+  - destruct x as [ex s t exc | m s t exc]; destruct a2 as [|[ex2 s2 t2 exc2 | m2 s2 t2 exc2] a2];
+      cbn [args_same] in H4; try discriminate; rewrite !andb_true_iff in H4.
+    + destruct H4 as [_ H4]. cbn [args_count args_depth] in *. apply IHa; assumption.
+    + destruct H4 as [[_ Hm] H4]. cbn [args_count args_depth] in *. f_equal.
+      * apply IH; [lia | exact Hm].
+      * apply IHa; [exact H4 | lia].
+Qed.
+
+Lemma dedupe_represents : forall defs ms seen m, In m ms ->
+  exists m', (In m' seen \/ In m' (dedupe seen ms)) /\ exact_count defs m' = exact_count defs m.
+Proof.
+  intros defs. induction ms as [|a ms IH]; intros seen m Hin; [destruct Hin|]. cbn [dedupe].
+  destruct (existsb (same_match a) seen) eqn:E.
+  - destruct Hin as [->|Hin]; [|apply IH; exact Hin].
+    apply existsb_exists in E. destruct E as [x [Hx Hs]]. exists x. split; [left; exact Hx|].
+    symmetry. eapply same_match_exact_count; [apply Nat.le_refl | exact Hs].
+  - destruct Hin as [->|Hin].
+    + exists m. split; [right; left; reflexivity | reflexivity].
+    + destruct (IH (seen ++ [a]) m Hin) as [m' [Hm' He]]. exists m'. split; [|exact He].
+      destruct Hm' as [Hm'|Hm']; [|right; right; exact Hm'].
+      apply in_app_iff in Hm'. destruct Hm' as [Hm'|[<-|[]]]; [left; exact Hm' | right; left; reflexivity].
+Qed.
+
+Theorem C07_literal_priority_all : forall defs working m, In m (finish_matches defs working) ->
+  forall m', In m' (map fst working) -> exact_count defs m' <= get_exact m.
+Proof.
+  intros defs working m H m' Hm'.
+  destruct (dedupe_represents defs _ [] _ Hm') as [m'' [[[]|Hin] He]].
+  rewrite <- He. eapply C07_literal_priority; eassumption.
+Qed.
